@@ -184,6 +184,31 @@ def run_history(c, positions, kinds, backend, rng_seed):
             rejected = True
         if rejected and any(r.calls for r in recs.values()):
             out.append(({"kind": "factory_invoked_by_rejected_call"}, {"call": c.record(), "positions": positions, "changed": j}))
+    # step 7: the same through an adapted numpy function (einx.numpy.adapt_numpylike_*): graph=True runs no factory, a call runs each once
+    adapted = None
+    import einx as _einx
+    if c.family == "elementwise" and c.op in ("add", "multiply", "subtract", "maximum", "minimum") and len(c.arrays) == 2:
+        adapted = _einx.numpy.adapt_numpylike_elementwise(getattr(np, c.op))
+    elif c.family == "reduce" and c.op in ("sum", "max", "min", "prod") and not c.extra_kwargs:
+        adapted = _einx.numpy.adapt_numpylike_reduce(getattr(np, c.op))
+    if adapted is not None:
+        kwa = {k: v for k, v in kw.items() if k != "backend"}
+        recs = {i: Recorder(c.arrays[i], kinds[i]) for i in positions}
+        try:
+            common.with_alarm(30, adapted, c.desc, *args_with(recs), graph=True, **kwa)
+        except BaseException:  # noqa: BLE001
+            pass
+        if any(r.calls for r in recs.values()):
+            out.append(({"kind": "factory_invoked_for_graph_text", "through": "adapter"}, {"call": c.record(), "positions": positions}))
+        recs = {i: Recorder(c.arrays[i], kinds[i]) for i in positions}
+        try:
+            r = common.with_alarm(30, adapted, c.desc, *args_with(recs), **kwa)
+        except BaseException:  # noqa: BLE001
+            r = None                   # what adapters accept is C15's business
+        if r is not None:
+            for i, rec in recs.items():
+                if len(rec.calls) != 1 or tuple(rec.calls[0][0]) != tuple(int(s) for s in np.shape(c.arrays[i])):
+                    out.append(({"kind": "factory_call_count", "through": "adapter", "count": len(rec.calls)}, {"call": c.record(), "position": i, "calls": str(rec.calls)[:300]}))
     # step 6: wrong return type / shape makes the call fail
     i = rng.choice(positions)
     for badkind in ("type", "shape", "type_duck", "type_nested"):
